@@ -5,6 +5,7 @@ import (
 	"fmt"
 	"math"
 	"os"
+	"path/filepath"
 	"sort"
 	"testing"
 	"time"
@@ -68,9 +69,11 @@ func genCase(t *rapid.T) Case {
 	var dates []int
 	c := Case{}
 	for i := 0; i < n; i++ {
-		k := rapid.SampledFrom([]string{"append", "append", "append", "get", "since", "since", "last", "assets"}).Draw(t, "k")
+		k := rapid.SampledFrom([]string{"append", "append", "append", "append", "get", "since", "since", "last", "assets", "touch"}).Draw(t, "k")
 		op := Op{K: k, Name: rapid.IntRange(0, 3).Draw(t, "name")}
 		switch k {
+		case "touch":
+			op.Name = rapid.IntRange(0, 2).Draw(t, "tname")
 		case "append":
 			op.Name = rapid.IntRange(0, 2).Draw(t, "aname") // NEVER is never appended
 			m := rapid.IntRange(0, 5).Draw(t, "batch")
@@ -108,6 +111,9 @@ func genCase(t *rapid.T) Case {
 type repoMaker struct {
 	name string
 	open func() (asset.Repository, func(), error)
+	// touch leaves an existing but EMPTY store for the name behind (file-system: a zero-byte
+	// file, as `touch` or an interrupted write does); nil where there is no such notion.
+	touch func(name string) error
 }
 
 func sameSnap(a *asset.Snapshot, b Snap) bool {
@@ -256,6 +262,16 @@ func prop(mk repoMaker) engine.AnyProp {
 					appendsTo[nm]++
 				case "since":
 					lastBound = op.Bound
+				case "touch":
+					// only for an asset that holds nothing yet: an empty file appears out of band
+					if mk.touch != nil && len(model[nm]) == 0 {
+						if err := mk.touch(nm); err != nil {
+							o.Failf("harness: touch: %v", err)
+							return o
+						}
+						known[nm] = true
+						o.Add("empty_files_left_behind", 1)
+					}
 				}
 				// an Append that has returned is visible to every later read: observe after every step
 				if !observe(i, lastBound) {
@@ -274,15 +290,19 @@ var sqlSeq int
 
 func makers() []repoMaker {
 	return []repoMaker{
-		{"memory", func() (asset.Repository, func(), error) { return asset.NewInMemoryRepository(), func() {}, nil }},
-		{"filesystem", func() (asset.Repository, func(), error) {
-			dir, err := os.MkdirTemp("", "verif-c10-")
-			if err != nil {
-				return nil, nil, err
-			}
-			return asset.NewFileSystemRepository(dir), func() { _ = os.RemoveAll(dir) }, nil
-		}},
-		{"sql", func() (asset.Repository, func(), error) {
+		{name: "memory", open: func() (asset.Repository, func(), error) { return asset.NewInMemoryRepository(), func() {}, nil }},
+		func() repoMaker {
+			dir := ""
+			return repoMaker{name: "filesystem", open: func() (asset.Repository, func(), error) {
+				d, err := os.MkdirTemp("", "verif-c10-")
+				if err != nil {
+					return nil, nil, err
+				}
+				dir = d
+				return asset.NewFileSystemRepository(d), func() { _ = os.RemoveAll(d) }, nil
+			}, touch: func(name string) error { return os.WriteFile(filepath.Join(dir, name+".csv"), nil, 0o600) }}
+		}(),
+		{name: "sql", open: func() (asset.Repository, func(), error) {
 			sqlSeq++
 			db := fmt.Sprintf("c10-%d-%d", engine.Shard(), sqlSeq)
 			r, err := asset.NewSQLRepository(stub.SQLDriverName, db, stub.MemDialect{})
